@@ -265,6 +265,8 @@ type RecQueue struct {
 	mu      sync.Mutex
 	Calls   []QueueCall
 	pending []any
+	// requeues counts AddRateLimited calls per key since the last Forget, like the real rate limiter
+	requeues map[string]int
 }
 
 // Push makes key the next item Get returns.
@@ -296,9 +298,26 @@ func (q *RecQueue) ShutDown()                                 {}
 func (q *RecQueue) ShutDownWithDrain()                        {}
 func (q *RecQueue) ShuttingDown() bool                        { return false }
 func (q *RecQueue) AddAfter(item any, duration time.Duration) { q.rec("AddAfter", item, duration) }
-func (q *RecQueue) AddRateLimited(item any)                   { q.rec("AddRateLimited", item, 0) }
-func (q *RecQueue) Forget(item any)                           { q.rec("Forget", item, 0) }
-func (q *RecQueue) NumRequeues(item any) int                  { return 0 }
+func (q *RecQueue) AddRateLimited(item any) {
+	q.mu.Lock()
+	if q.requeues == nil {
+		q.requeues = map[string]int{}
+	}
+	q.requeues[fmt.Sprint(item)]++
+	q.mu.Unlock()
+	q.rec("AddRateLimited", item, 0)
+}
+func (q *RecQueue) Forget(item any) {
+	q.mu.Lock()
+	delete(q.requeues, fmt.Sprint(item))
+	q.mu.Unlock()
+	q.rec("Forget", item, 0)
+}
+func (q *RecQueue) NumRequeues(item any) int {
+	q.mu.Lock()
+	defer q.mu.Unlock()
+	return q.requeues[fmt.Sprint(item)]
+}
 
 // Take returns and clears the recorded calls.
 func (q *RecQueue) Take() []QueueCall {
